@@ -290,7 +290,7 @@ def judge(ctx, recs, metas, prefixes, label):
     for r, m, fails in zip(recs, metas, verdicts):
         for f in fails:
             if any(f.startswith(p) for p in prefixes):
-                ctx.violation(f, '%s: %s (raised=%r)' % (r['op'], m, r.get('raised', '')), {'kind': 'tables', 'op': r['op'], 'meta': m})
+                ctx.violation(f + m.get('key_suffix', ''), '%s: %s (raised=%r)' % (r['op'], m, r.get('raised', '')), {'kind': 'tables', 'op': r['op'], 'meta': m})
     ctx.traces += len(recs)
     ctx.evaluations += len(recs)
     return verdicts
